@@ -579,3 +579,39 @@ def uc_table(texts):
         rows.append([ord(ch), Sym('T') if isd else Sym('F'), Sym('T') if re.match(r'[\w_]', ch) else Sym('F'),
                      [ord(c) for c in ch.upper()], int(ch) if isd else 0])
     return rows
+
+
+# --------------------------------------------------------------------------- the real PLY lexer (shared by C01 / C12)
+
+_lexargs = None
+
+
+def real_tokens(xtuml, text):
+    """the token stream of the REAL PLY lexer of the loader on `text`, in the compact form the Lean driver prints: the token
+    types in one string and a 64-bit polynomial digest of the lexemes; `illegal` when t_error raised.  The lexer is built
+    exactly as ModelLoader.input builds it."""
+    global _lexargs
+    import os
+    from ply import lex
+    from sexp import Sym
+    import xtuml.load as load
+    if _lexargs is None:
+        _lexargs = dict(debuglog=load.logger, errorlog=load.logger, optimize=1,
+                        outputdir=os.path.dirname(load.__file__), lextab='xtuml.__xtuml_lextab')
+    lexer = lex.lex(module=xtuml.ModelLoader(), **_lexargs)
+    lexer.filename = '<string>'
+    lexer.input(text)
+    types = []
+    h = 7
+    try:
+        while True:
+            t = lexer.token()
+            if t is None:
+                return [' '.join(types), h]
+            types.append(t.type)
+            for ch in t.value:
+                h = (h * 1000003 + ord(ch) + 1) & 0xFFFFFFFFFFFFFFFF
+            h = (h * 1000003) & 0xFFFFFFFFFFFFFFFF
+    except xtuml.ParsingException:
+        return Sym('illegal')
+
